@@ -325,6 +325,71 @@ def run_sequences(args):
     return p
 
 
+# ------------------------------------------------------------------------------------------
+# messages with many subsets: every pair (and, for 10 subsets, every triple) of indices, given as list / tuple / set /
+# frozenset / range -- the order and the container the caller uses must not matter, only the set of indices
+MANY_TEMPLATES = [('plain', [1001, 5002]), ('char-delayed', [10, 101000, 31001, 1001]), ('fixed-repl', [102002, 1001, 2001])]
+
+
+def many_collections(n, triples):
+    out = []
+    k = 0
+    for i in range(n):
+        for j in range(n):
+            if i == j:
+                continue
+            if n > 12 and i > j:
+                continue
+            k += 1
+            c = [i, j] if k % 2 else [j, i]
+            typ = (list, tuple, set, frozenset)[k % 4]
+            out.append((typ(c), sorted({i, j})))
+    if triples:
+        for t in itertools.product(range(n), repeat=3):
+            if len(set(t)) >= 2 and list(t) != sorted(t):
+                out.append((list(t), sorted(set(t))))
+    for a, b, c in ((0, n, 1), (1, n, 2), (n - 1, -1, -3), (n - 3, n, 1), (0, n, 7), (8, n, 1), (7, 9, 1)):
+        r = range(a, b, c)
+        if len(r):
+            out.append((r, sorted(r)))
+            out.append((list(reversed(r)), sorted(r)))
+    out.append(([n - 1, n], None))
+    out.append(({0, n}, None))
+    out.append(((n - 1, -1), None))
+    return out
+
+
+def run_many(args):
+    name, descs, nsub, comp, pattern, lo, hi = args
+    p = Partial()
+    colls = many_collections(nsub, nsub <= 12)
+    for coll, want in colls[lo:hi]:
+        res = judge(descs, nsub, comp, pattern, coll, want)
+        p.n['exec'] += 1
+        if 'skip' in res:
+            p.n['skipped'] += 1
+            p.hist[res['skip'][:40]] += 1
+            continue
+        p.outcome(res['outcome'][:1] + res['outcome'][3:])
+        if 'viol' in res:
+            sig, detail = res['viol']
+            cls = 'refuse' if want is None else ('unordered' if list(coll) != want else 'plain')
+            p.violation('%s|many|%s|%s|%s' % (sig, cls, type(coll).__name__, 'comp' if comp else 'uncomp'),
+                        {'name': name, 'descs': descs, 'nsub': nsub, 'compressed': comp, 'pattern': pattern,
+                         'collection': sorted(coll) if isinstance(coll, (set, frozenset)) else list(coll),
+                         'type': type(coll).__name__, 'range': [coll.start, coll.stop, coll.step] if isinstance(coll, range) else None,
+                         'want': want}, detail, observed=res.get('bytes'))
+    p.n['nodes'] += p.n['exec'] + 1
+    p.n['edges'] += p.n['exec']
+    return p
+
+
+def _many_collection_of(case):
+    if case['type'] == 'range':
+        return range(*case['range'])
+    return {'list': list, 'tuple': tuple, 'set': set, 'frozenset': frozenset}[case['type']](case['collection'])
+
+
 SEQ_TEMPLATES = [('plain', [1001, 5002, 10]), ('fixed-repl', [102002, 1001, 2001, 5002]), ('delayed', [1001, 101000, 31001, 5002]),
                  ('operators', [201130, 5002, 201000, 204002, 31021, 1001, 204000]),
                  ('bitmap', [1001, 5002, 222000, 236000, 101002, 31031, 33007, 33007])]
@@ -475,6 +540,14 @@ def replay(part, case):
         p = run_cli_part(None)
         return [{'sig': v['sig'], 'detail': v['detail']} for v in p.viol
                 if v['case']['indices'] == case['indices'] and v['case']['descs'] == case['descs']]
+    if part.startswith('many-subsets'):
+        coll = _many_collection_of(case)
+        res = judge(case['descs'], case['nsub'], case['compressed'], case['pattern'], coll, case['want'])
+        if 'viol' not in res:
+            return []
+        cls = 'refuse' if case['want'] is None else ('unordered' if list(coll) != case['want'] else 'plain')
+        return [{'sig': '%s|many|%s|%s|%s' % (res['viol'][0], cls, case['type'], 'comp' if case['compressed'] else 'uncomp'),
+                 'detail': res['viol'][1]}]
     if part.startswith('call-sequences'):
         p = run_sequences(([(case['name'], case['descs'])], case['compressed'], len(case['sequence'])))
         return [{'sig': v['sig'], 'detail': v['detail']} for v in p.viol
@@ -501,7 +574,8 @@ def main(tier, seed):
     rep.rule = ('message = template x subset count x compression x value pattern (4), collection = every sequence over '
                 '0..n-1 of length <= 3 + full range + reverse (lists; tuples for the unordered/repeating ones) + 7 '
                 'out-of-range collections; all S-choices, no deviation budget; outcome class = (n, compressed, pattern, '
-                'collection length, distinct indices, collection type)')
+                'collection length, distinct indices, collection type); many-subsets parts: messages of 9..70 subsets x every pair of '
+                'indices x container types')
     rep.trusted_base = ['mc.ref.codec / mc.ref.message: the content of every source subset and the expected result message '
                         'are built by the reference model']
     rep.assumptions = ['corpus part: a source value that coincides with an all-ones pattern (possible in a compressed column as '
@@ -531,6 +605,20 @@ def main(tier, seed):
         rep.add_part('call-sequences-%s' % ('c' if comp else 'u'), p,
                      bounds={'templates': len(SEQ_TEMPLATES), 'subsets': 3, 'collections': SEQ_MENU, 'max_calls': L,
                              'encode_orders': ['forward (after all calls)', 'reverse'], 'compressed': comp})
+    for nsub in ((10, 34) if tier == 'quick' else (9, 10, 17, 34, 70)):
+        jobs = []
+        ncoll = len(many_collections(nsub, nsub <= 12))
+        for name, descs in MANY_TEMPLATES:
+            for comp in (False, True):
+                for pattern in ((0,) if tier == 'quick' else (0, 1)):
+                    step = max(8, ncoll // 12)
+                    jobs += [(name, descs, nsub, comp, pattern, lo, lo + step) for lo in range(0, ncoll, step)]
+        p = merge_all(run_shards(run_many, jobs))
+        rep.add_part('many-subsets-n%d' % nsub, p,
+                     bounds={'subsets': nsub, 'templates': [n_ for n_, _ in MANY_TEMPLATES], 'collections': ncoll,
+                             'collections_rule': 'every pair of distinct indices (both orders for n <= 12), for n <= 12 every '
+                                                 'unsorted triple; list / tuple / set / frozenset by turns; ranges; 3 out of range',
+                             'compressed': [False, True]})
     from mc.gen import corpus
     msgs = list(corpus.messages(max_bytes=6000 if tier == 'quick' else 60000))
     p = merge_all(run_shards(run_corpus, split(msgs, 64)))
